@@ -301,7 +301,7 @@ non-trivial = payload non-empty and one of {>=2 deflate blocks, >=2 segments, a 
         };
 
         let tok = token(case.coding, case.token_style);
-        let framing = if case.via_te { match &case.framing { Framing::Chunked(p) => Framing::Chunked(p.clone()), _ => Framing::Chunked(gen::ChunkPlan { sizes: vec![4000, 9], styles: vec![], last: gen::ChunkStyle { hex: 0, zeros: 0, ext: 0 } }) } } else { case.framing.clone() };
+        let framing = if case.via_te { match &case.framing { Framing::Chunked(p) => Framing::Chunked(p.clone()), _ => Framing::Chunked(gen::ChunkPlan { sizes: vec![4000, 9], styles: vec![], last: gen::ChunkStyle { hex: 0, zeros: 0, ext: 0 }, trailers: 0 }) } } else { case.framing.clone() };
         let method = match case.method {
             0 => http::Method::GET,
             1 => http::Method::POST,
